@@ -270,7 +270,15 @@ pub fn render(items: &[Item]) -> Rendered {
                     // assignment style: name = pytest.fixture()(_impl)
                     w.ln(&format!("{}def _impl_{}():", ind, f.func));
                     w.ln(&format!("{}    return 0", ind));
-                    let line = format!("{}{} = pytest.fixture()(_impl_{})", ind, f.func, f.func);
+                    // scope / autouse are arguments of the inner call here
+                    let mut a: Vec<String> = vec![];
+                    if f.scope != 0 {
+                        a.push(format!("scope=\"{}\"", SCOPES[(f.scope as usize).min(4)]));
+                    }
+                    if f.autouse {
+                        a.push("autouse=True".to_string());
+                    }
+                    let line = format!("{}{} = pytest.fixture({})(_impl_{})", ind, f.func, a.join(", "), f.func);
                     let st = ind.len();
                     out.toks.push(Tok { kind: TokKind::Def, name: f.func.clone(), line: w.line, start: st, end: st + f.func.len(), item: idx, in_fixture: None });
                     out.defs.push((f.func.clone(), w.line, idx));
